@@ -2,6 +2,7 @@
 from __future__ import annotations
 
 import itertools
+import math
 from fractions import Fraction as Fr
 
 import numpy as np
@@ -99,6 +100,29 @@ def jobs(tier, seed):
     sel.append((("BC", "BD", "CD"), (1, 2, 0)))
     for sub, js in sel:
         out.append(("interference", sub, js))
+    # the same statement with the four-momenta given in a frame in which the parent moves (the helicity angles must
+    # come out of the chain of boosts, not of the frame the momenta happen to be given in)
+    moving = sel[-1:] + [c for c in sel[:-1] if any(J >= 1 for J in c[1])][: (2 if tier == "quick" else 12)]
+    for sub, js in moving:
+        out.append(("interference", sub, js, "moving"))
+    return out
+
+
+MOVING_BETA = (0.3, -0.5, 0.6)
+
+
+def boosted(p4, beta=MOVING_BETA):
+    """{name: (n,4)} boosted by the velocity beta (numpy)"""
+    b = np.asarray(beta, dtype=float)
+    b2 = float(b @ b)
+    g = 1 / math.sqrt(1 - b2)
+    out = {}
+    for k, p in p4.items():
+        p = np.asarray(p, dtype=float)
+        bp = p[:, 1:] @ b
+        E = g * (p[:, 0] + bp)
+        sp = p[:, 1:] + ((g - 1) * bp / b2 + g * p[:, 0])[:, None] * b
+        out[k] = np.concatenate([E[:, None], sp], axis=1)
     return out
 
 
@@ -455,16 +479,20 @@ def _np_reference_terms(cfg, sub, js, p4, ms="a"):
     return out
 
 
-def job_interference(ss, sub, js):
+def job_interference(ss, sub, js, frame="rest"):
     cfg = multi_cfg(sub, js)
     amp, config = AT.build_model(cfg)
     th = AT.symbolize_couplings(amp, cartesian=True)
     for x in th.values():
         S.assume(x >= -2)
         S.assume(x <= 2)
-    data = AT.phsp_data(config, 2)
+    if frame == "moving":
+        p4 = boosted(AT.phsp_p4(config, 2))
+        data = AT.data_of(config, p4)
+    else:
+        data = AT.phsp_data(config, 2)
+        p4 = {str(p): np.asarray(v["p"].arr, dtype=float) for p, v in data["particle"].items() if str(p) in ("B", "C", "D")}
     dens = [term_of(e) for e in amp(data).arr.reshape(-1)]
-    p4 = {str(p): np.asarray(v["p"].arr, dtype=float) for p, v in data["particle"].items() if str(p) in ("B", "C", "D")}
     terms = _np_reference_terms(cfg, sub, js, p4)
     names = list(th)
 
@@ -474,7 +502,8 @@ def job_interference(ss, sub, js):
         return SymComplex(r, i)
 
     other = {"BC": "D", "BD": "C", "CD": "B"}
-    pay = lambda mod: dict(kind="interference", sub=list(sub), js=list(js), params=AT.model_params(amp, mod, cartesian=True))
+    pay = lambda mod: dict(kind="interference", sub=list(sub), js=list(js), frame=frame, params=AT.model_params(amp, mod, cartesian=True))
+    ftag = "" if frame == "rest" else ";" + frame
     for e in range(len(dens)):
         tot = SymComplex(SymReal(T.ZERO), SymReal(T.ZERO))
         for (s, J), tk in zip(zip(sub, js), terms):
@@ -483,7 +512,7 @@ def job_interference(ss, sub, js):
             z = complex(tk[e])
             tot = tot + c * S.lift(z)
         ref = tot.re * tot.re + tot.im * tot.im
-        prove_close_poly(ss, "interference.density[%s;%s;%d]" % ("+".join(sub), ",".join(map(str, js)), e), dens[e], ref.t, EPS, 2, key="interference", payload=pay, timeout=90,
+        prove_close_poly(ss, "interference.density[%s;%s;%d%s]" % ("+".join(sub), ",".join(map(str, js)), e, ftag), dens[e], ref.t, EPS, 2, key="interference", payload=pay, timeout=90,
                          describe="density = |sum_k c_k (-1)^J q^J p^J B_J(q) B_J(p) BW_k(m_k) P_J(cos theta_k)|^2 with kinematics from invariants, for all couplings (|components| <= 2, tolerance 1e-9)")
     # a reference without the (-1)^J of one odd-spin chain must be told apart when it interferes with another chain
     odd = [k for k, J in enumerate(js) if J % 2 == 1]
@@ -494,7 +523,7 @@ def job_interference(ss, sub, js):
             c = cpl("A->%s.%s%s->%s.%s_total" % (R, other[s], R, s[0], s[1])) * cpl("A->%s.%s_g_ls" % (R, other[s])) * cpl("%s->%s.%s_g_ls" % (R, s[0], s[1]))
             tot = tot + c * S.lift(complex(tk[0]) * (-1 if k == odd[0] else 1))
         wrong = tot.re * tot.re + tot.im * tot.im
-        ss.mutant("interference.mutant_sign[%s;%s]" % ("+".join(sub), ",".join(map(str, js))), facts(), far(dens[0], wrong.t, Fr(1, 10**12)))
+        ss.mutant("interference.mutant_sign[%s;%s%s]" % ("+".join(sub), ",".join(map(str, js)), ftag), facts(), far(dens[0], wrong.t, Fr(1, 10**12)))
     ss.note(name="interference.setup", chains=len(sub))
 
 
